@@ -22,6 +22,9 @@ NPOOL = 40
 POOL = [dict(sym="m%02d" % i, file="libm%02d.so" % i, soname=("libm%02d.so.1" % i) if i % 3 else None,
              pad=((i * 7) % 5) * 4096, bulk=((i * 13) % 4) * 12) for i in range(NPOOL)]
 VERS = ["absent", "v1", "v2", "v3"]
+OPTS = [[], [], ["--show-identical-binaries"], ["--leaf-changes-only", "--impacted-interfaces"], ["--harmless", "--redundant"], ["--no-added-binaries"],
+        ["--verbose"], ["--dso-only", "--no-show-locs"]]
+LAYOUTS = [["usr/lib"], ["usr/lib"], ["usr/lib", "usr/lib64"], ["usr/lib", "usr/lib/plugins", "opt/p/lib"]]
 
 
 class _Proxy:
@@ -34,7 +37,7 @@ class _Proxy:
 
 def packages(c):
     if c.thorough:
-        ns = [n for n in range(1, NPOOL + 1) for _ in (0, 1)]
+        ns = list(range(1, NPOOL + 1)) + [c.rng.randint(2, NPOOL) for _ in range(20)]
     else:
         ns = [1, 2, 3, 5, 8, 13, 24, 40]
     res = []
@@ -47,7 +50,8 @@ def packages(c):
             p1[0] = "v1"
         if all(v == "absent" for v in p2):
             p2[0] = "v2"
-        res.append({"bins": bins, "dirs": ["usr/lib"] * n, "pkg1": p1, "pkg2": p2})
+        lay_ = c.rng.choice(LAYOUTS)
+        res.append({"bins": bins, "dirs": [c.rng.choice(lay_) for _ in bins], "pkg1": p1, "pkg2": p2, "opts": c.rng.choice(OPTS)})
     return res
 
 
@@ -79,12 +83,12 @@ def lay(workdir, i, p, built):
     return (pk.lay_out(os.path.join(d, "d1"), bins, p["dirs"], p["pkg1"], built), pk.lay_out(os.path.join(d, "d2"), bins, p["dirs"], p["pkg2"], built))
 
 
-def par_run(workdir, rid, dirs, variant, workers, seed, seqres, shim):
+def par_run(workdir, rid, dirs, variant, workers, seed, seqres, shim, opts=()):
     """one parallel run -> (Par event, H1 executions, ThreadSanitizer samples)"""
     sc = os.path.join(workdir, "run", str(rid))
     tr = os.path.join(sc, "h1.ndjson")
     os.makedirs(sc, exist_ok=True)
-    r = pk.run_pkgdiff(variant, dirs[0], dirs[1], sc, nproc=workers, seed=seed, trace=tr, shim=shim, timeout=600 if variant == "tsan" else 240)
+    r = pk.run_pkgdiff(variant, dirs[0], dirs[1], sc, nproc=workers, seed=seed, trace=tr, shim=shim, extra=opts, timeout=600 if variant == "tsan" else 240)
     h1 = h1_executions(tr, _Proxy(r), rid, needsum=False)
     ours, foreign, samples = pk.tsan_reports(r.err)
     qs = {}
@@ -121,8 +125,15 @@ def selftest(c, good):
 
 
 def main():
+    import time
     c = vf.Check("C31", "model_checking")
+    phase, t_last = {}, [time.time()]
+
+    def mark(name):
+        phase[name] = round(time.time() - t_last[0], 1)
+        t_last[0] = time.time()
     vf.build("hooks", "tsan")
+    mark("build")
     need_hooks(os.path.join(vf.bdir("hooks"), "src", "abg-workers.cc"))
     fp = pk.fingerprints()
     shim = pk.nproc_shim(c)
@@ -152,12 +163,15 @@ def main():
     pkgs = usable
     dirs = vf.pmap(lambda ip: lay(c.workdir, ip[0], ip[1], built), list(enumerate(pkgs)), jobs=8)
     runs = runs_of(c, pkgs)
+    mark("binaries+packages")
     seqkeys = sorted({(i, v) for (i, v, w, s) in runs})
     seqs = dict(zip(seqkeys, vf.pmap(lambda k: pk.run_pkgdiff(k[1], dirs[k[0]][0], dirs[k[0]][1], os.path.join(c.workdir, "seq", "%d-%s" % k), seq=True,
-                                                               timeout=600 if k[1] == "tsan" else 240), seqkeys, jobs=8)))
+                                                               extra=pkgs[k[0]]["opts"], timeout=600 if k[1] == "tsan" else 240), seqkeys, jobs=8)))
     # parallel runs need real parallelism to be worth anything: few at a time (each starts up to 16 threads)
-    res = vf.pmap(lambda ir: par_run(c.workdir, ir[0], dirs[ir[1][0]], ir[1][1], ir[1][2], ir[1][3], seqs[(ir[1][0], ir[1][1])], shim),
+    res = vf.pmap(lambda ir: par_run(c.workdir, ir[0], dirs[ir[1][0]], ir[1][1], ir[1][2], ir[1][3], seqs[(ir[1][0], ir[1][1])], shim,
+                                     pkgs[ir[1][0]]["opts"]),
                   list(enumerate(runs)), jobs=4)
+    mark("campaign")
     pars = [ev for ev, h1, sm in res]
     by_run = {rid: h1 for rid, (ev, h1, sm) in enumerate(res)}
 
@@ -184,7 +198,10 @@ def main():
     elif not c.violations:
         vf.infra("no accepted run suitable for the trace-specification self-test")
 
+    mark("validation")
     th.join()
+    mark("waiting for the models (they run beside the campaign)")
+    c.cov["phase_s"] = phase
     if merr:
         raise merr[0]
     for r in mres:
@@ -228,8 +245,8 @@ def replay(path):
     c = type("R", (), {"workdir": wd})()
     built = pk.build_all(os.path.join(wd, "bins"), [POOL[k] for k in cs["bins"]])
     d = lay(wd, 0, cs, built)
-    seq = pk.run_pkgdiff(cs["variant"], d[0], d[1], os.path.join(wd, "seq"), seq=True, timeout=600)
-    ev, h1, sm = par_run(wd, 0, d, cs["variant"], cs["workers"], cs["seed"], seq, pk.nproc_shim(c))
+    seq = pk.run_pkgdiff(cs["variant"], d[0], d[1], os.path.join(wd, "seq"), seq=True, extra=cs.get("opts", ()), timeout=600)
+    ev, h1, sm = par_run(wd, 0, d, cs["variant"], cs["workers"], cs["seed"], seq, pk.nproc_shim(c), cs.get("opts", ()))
     print(json.dumps(ev))
     r1 = vf.tlc_validate("PkgDiffTrace.tla", "PkgDiffTrace.cfg", [ev])
     r2 = vf.tlc_validate("WorkerQueueAbsTrace.tla", "WorkerQueueAbsTrace.cfg", h1)
